@@ -899,15 +899,220 @@ fn write_witnesses(dir: &str) {
     }
 }
 
+/// the part-list format of the `zipped` fuzz target: `\n--PART <name>\n<data>` ...
+fn parts_format(parts: &[(String, Vec<u8>)]) -> Vec<u8> {
+    let mut out = vec![];
+    for (name, data) in parts {
+        out.extend_from_slice(b"\n--PART ");
+        out.extend_from_slice(name.as_bytes());
+        out.push(b'\n');
+        out.extend_from_slice(data);
+    }
+    out
+}
+
+/// the same split as fuzz_targets/zipped.rs, packed by the harness's own zip writer (stored)
+fn parts_to_zip(input: &[u8]) -> Option<Vec<u8>> {
+    const D: &[u8] = b"\n--PART ";
+    let mut cuts = vec![];
+    let mut i = 0;
+    while i + D.len() <= input.len() {
+        if &input[i..i + D.len()] == D {
+            cuts.push(i);
+            i += D.len();
+        } else {
+            i += 1;
+        }
+    }
+    let mut entries = vec![];
+    for (k, &c) in cuts.iter().enumerate() {
+        let end = cuts.get(k + 1).copied().unwrap_or(input.len());
+        let chunk = &input[c + D.len()..end];
+        let nl = chunk.iter().position(|&b| b == b'\n').unwrap_or(chunk.len());
+        let name = &chunk[..nl];
+        let data = if nl < chunk.len() { chunk[nl + 1..].to_vec() } else { vec![] };
+        if !name.is_empty() && name.len() < 200 {
+            entries.push(zipw::ZipEntry { name: String::from_utf8_lossy(name).into_owned(), data, method: zipw::Method::Stored, data_descriptor: false });
+        }
+    }
+    if entries.is_empty() || entries.len() > 40 {
+        return None;
+    }
+    Some(zipw::write_zip(&entries, b""))
+}
+
+/// small valid files of every base kind (seeds for the coverage-guided tier): final bytes for the
+/// compound-file based kinds, part lists for the zip based ones
+pub fn write_corpus(raw: &std::path::Path, zipped: &std::path::Path, per_base: u64) -> usize {
+    let _ = std::fs::create_dir_all(raw);
+    let _ = std::fs::create_dir_all(zipped);
+    let mut n = 0;
+    for base in 0..9u8 {
+        for seed in 0..per_base {
+            let seed64 = seed.wrapping_mul(0x9E37_79B9_7F4A_7C15);
+            let c = build(base, seed64);
+            let (dir, bytes) = match c.wrap {
+                Wrap::Cfb(_) => (raw, assemble(&Case { base, seed: seed64, faults: vec![], bytes_hex: None })),
+                _ => (zipped, parts_format(&c.parts)),
+            };
+            if bytes.len() <= 65536 && std::fs::write(dir.join(format!("valid-{base}-{seed}")), &bytes).is_ok() {
+                n += 1;
+            }
+        }
+    }
+    n
+}
+
+/// Coverage-guided tier: two libFuzzer targets (/verif/fuzz) run in fork mode from a corpus of
+/// valid generated files; every artifact they save is classified by the same isolated oracle as
+/// the generated cases, so recorded findings are told from new ones and each new signature
+/// becomes one replay file.
+fn fuzz_phase(ctx: &mut Ctx) {
+    use std::process::{Command, Stdio};
+    let default_secs = if ctx.quick() { 0 } else { 600 };
+    let secs: u64 = std::env::var("CVERIF_FUZZ_SECS").ok().and_then(|s| s.parse().ok()).unwrap_or(default_secs);
+    if secs == 0 {
+        return;
+    }
+    let root = std::path::PathBuf::from(format!("{}/harness/target/scratch/fuzz-{}", crate::engine::VERIF_ROOT, std::process::id()));
+    let _ = std::fs::remove_dir_all(&root);
+    let (craw, czip, araw, azip) = (root.join("corpus-raw"), root.join("corpus-zip"), root.join("art-raw"), root.join("art-zip"));
+    for d in [&araw, &azip] {
+        let _ = std::fs::create_dir_all(d);
+    }
+    let seeds = write_corpus(&craw, &czip, 8);
+    let skipped = |ctx: &mut Ctx, why: &str| {
+        println!("NOTE: C06 coverage-guided sub-check skipped ({why}); the generated-fault sub-check above still decides");
+        ctx.record_sweep("libfuzzer", 0, 0, Default::default(), vec![], false, &format!("skipped: {why}"));
+    };
+    let built = Command::new("cargo")
+        .args(["+nightly", "fuzz", "build", "--fuzz-dir", "/verif/fuzz", "-O", "--debug-assertions"])
+        .env("CARGO_NET_OFFLINE", "true")
+        .stdout(Stdio::null())
+        .stderr(Stdio::null())
+        .status();
+    if !matches!(built, Ok(s) if s.success()) {
+        skipped(ctx, "cargo +nightly fuzz build failed");
+        let _ = std::fs::remove_dir_all(&root);
+        return;
+    }
+    let jobs = (ctx.threads / 2).max(1);
+    let spawn = |target: &str, corpus: &std::path::Path, art: &std::path::Path| {
+        use std::os::unix::process::CommandExt;
+        let mut cmd = Command::new(format!("/verif/fuzz/target/x86_64-unknown-linux-gnu/release/{target}"));
+        // AddressSanitizer reserves terabytes of address space: lift the harness's own soft limit
+        unsafe {
+            cmd.pre_exec(|| {
+                let mut lim = libc::rlimit { rlim_cur: 0, rlim_max: 0 };
+                libc::getrlimit(libc::RLIMIT_AS, &mut lim);
+                lim.rlim_cur = lim.rlim_max;
+                libc::setrlimit(libc::RLIMIT_AS, &lim);
+                Ok(())
+            });
+        }
+        cmd.arg(corpus)
+            .args([
+                format!("-fork={jobs}"),
+                "-ignore_crashes=1".into(),
+                "-ignore_ooms=1".into(),
+                "-ignore_timeouts=1".into(),
+                format!("-max_total_time={secs}"),
+                format!("-seed={}", (ctx.seed % 0xFFFF_FFFE) + 1),
+                "-max_len=65536".into(),
+                "-len_control=0".into(),
+                format!("-malloc_limit_mb={}", MEM_LIMIT >> 20),
+                "-rss_limit_mb=3072".into(),
+                "-timeout=10".into(),
+                format!("-artifact_prefix={}/", art.display()),
+            ])
+            .env("ASAN_OPTIONS", "detect_odr_violation=0:allocator_may_return_null=1")
+            .current_dir(&root)
+            .stdout(Stdio::null())
+            .stderr(Stdio::piped())
+            .spawn()
+    };
+    let children = [("readers", &craw, &araw, false), ("zipped", &czip, &azip, true)].map(|(t, c, a, z)| (t, a.clone(), z, spawn(t, c, a)));
+    let mut execs = 0u64;
+    let mut labels: std::collections::BTreeMap<String, u64> = Default::default();
+    let mut arts: Vec<(String, Vec<u8>)> = vec![];
+    for (target, art, zipped, child) in children {
+        let Ok(child) = child else {
+            skipped(ctx, "cannot start the fuzz target");
+            continue;
+        };
+        let out = child.wait_with_output().map(|o| String::from_utf8_lossy(&o.stderr).into_owned()).unwrap_or_default();
+        // fork mode prints "#<execs>: cov: ..." status lines
+        let n = out.lines().rev().find_map(|l| l.strip_prefix('#').and_then(|r| r.split(':').next()).and_then(|n| n.trim().parse::<u64>().ok())).unwrap_or(0);
+        execs += n;
+        *labels.entry(format!("target:{target}:execs")).or_default() += n;
+        let cov = out.lines().rev().find_map(|l| l.split("cov: ").nth(1).and_then(|r| r.split(' ').next()).and_then(|n| n.parse::<u64>().ok())).unwrap_or(0);
+        *labels.entry(format!("target:{target}:edges-covered")).or_default() += cov;
+        let mut files: Vec<_> = std::fs::read_dir(&art).map(|d| d.flatten().map(|e| e.path()).collect()).unwrap_or_default();
+        files.sort();
+        *labels.entry(format!("target:{target}:artifacts")).or_default() += files.len() as u64;
+        for f in files.into_iter().take(3000) {
+            let Ok(b) = std::fs::read(&f) else { continue };
+            let kind = f.file_name().and_then(|n| n.to_str()).unwrap_or("").split('-').next().unwrap_or("").to_string();
+            let bytes = if zipped { parts_to_zip(&b) } else { Some(b) };
+            if let Some(bytes) = bytes {
+                arts.push((kind, bytes));
+            }
+        }
+    }
+    // classify the artifacts (in parallel: each classification forks its own child)
+    let seen = std::sync::Mutex::new(std::collections::BTreeMap::<String, (Case, String)>::new());
+    let counts = std::sync::Mutex::new(std::collections::BTreeMap::<String, u64>::new());
+    let next = std::sync::atomic::AtomicUsize::new(0);
+    std::thread::scope(|sc| {
+        for _ in 0..ctx.threads {
+            sc.spawn(|| loop {
+                let i = next.fetch_add(1, std::sync::atomic::Ordering::Relaxed);
+                let Some((kind, bytes)) = arts.get(i) else { break };
+                let case = Case { base: 0, seed: 0, faults: vec![], bytes_hex: Some(bytes.iter().map(|b| format!("{b:02x}")).collect()) };
+                let rep = oracle(&case);
+                let class = match (&rep.verdict, &rep.excluded) {
+                    (Some(_), _) => "artifact:violation",
+                    (None, Some(_)) => "artifact:known-finding",
+                    _ => "artifact:not-reproduced-by-the-oracle",
+                };
+                *counts.lock().unwrap().entry(format!("{class} ({kind})")).or_default() += 1;
+                if let Some(msg) = rep.verdict {
+                    let sig = msg.rsplit("[signature: ").next().unwrap_or("").to_string();
+                    seen.lock().unwrap().entry(sig).or_insert((case, msg));
+                }
+            });
+        }
+    });
+    for (k, v) in counts.into_inner().unwrap() {
+        *labels.entry(k).or_default() += v;
+    }
+    let distinct = arts.len() as u64;
+    for (_, (case, msg)) in seen.into_inner().unwrap() {
+        ctx.report_violation("faults", &case, &format!("found by libFuzzer: {msg}"));
+    }
+    ctx.record_sweep(
+        "libfuzzer",
+        execs,
+        execs.min(distinct.max(2)),
+        labels,
+        vec![serde_json::json!({"targets": ["readers (raw bytes)", "zipped (part list packed into a stored zip inside the target)"], "seed_files": seeds, "seconds_per_target": secs, "jobs_per_target": jobs})],
+        false,
+        "coverage-guided: libFuzzer fork mode over the complete read API; artifacts re-classified by the isolated oracle; bounded by wall-clock time (a budget hit is not a verdict)",
+    );
+    let _ = std::fs::remove_dir_all(&root);
+}
+
 fn run(ctx: &mut Ctx) {
     if let Ok(dir) = std::env::var("CVERIF_WITNESS") {
         write_witnesses(&dir);
     }
+
     let n = ctx.n(1500, 400_000);
     ctx.max_shrink_iters = 150;
     ctx.run("faults", n, case_strategy, oracle);
     ctx.max_shrink_iters = 4000;
     embed_bytes(ctx);
+    fuzz_phase(ctx);
     ctx.assumptions.push("inputs are <= 1 MiB; 'memory out of proportion' = more than 256 MiB requested at once or live at the peak (valid files of this size stay below 40 MiB); 'hang' = more than 10 s of thread CPU time, or no progress for 120 s (watchdog), confirmed in isolation by the supervisor".into());
     ctx.assumptions.push("panics recorded in known_findings.json are tolerated by (innermost calamine function, message class); every other panic is a violation".into());
 }
